@@ -172,6 +172,78 @@ def _reachable(repo, eng, roots):
     return seen
 
 
+_PROCESS_WIDE_CM = ("warnings.catch_warnings", "catch_warnings", "np.printoptions", "numpy.printoptions", "xr.set_options", "xarray.set_options",
+                    "decimal.localcontext", "contextlib.redirect_stdout", "contextlib.redirect_stderr")
+_PROCESS_WIDE_SET = ("warnings.filterwarnings", "warnings.simplefilter", "warnings.resetwarnings", "np.seterr", "numpy.seterr", "np.seterrcall",
+                     "np.set_printoptions", "os.chdir", "os.environ.update", "locale.setlocale", "np.random.seed", "random.seed")
+
+
+def process_wide_settings_in_kernels(repo, rep, eng, reach, rule):
+    """Kernels of apply_ufunc(dask='parallelized') run concurrently under the threaded scheduler.  `warnings.catch_warnings()` (and the other
+    save / set / restore context managers of process-wide settings) is not thread-safe: thread A saves the filters, B saves A's modified
+    filters, A restores, B restores A's MODIFIED filters - the temporary setting (e.g. 'error') leaks into the whole process for good.
+    Accepted: the context manager entered while holding a module-level lock (`with _LOCK, warnings.catch_warnings():`)."""
+    rep.rule(rule, "no function that runs inside a dask task changes a process-wide setting (warning filters, print options, numpy error callbacks) - "
+                   "not even through its save / restore context manager - unless a module-level lock serialises it: the restore of one thread "
+                   "reinstates what another thread had temporarily set")
+
+    def is_lock(e, fi):
+        if isinstance(e, ast.Name):
+            for a in fi.module.tree.body:
+                if isinstance(a, ast.Assign) and any(isinstance(t, ast.Name) and t.id == e.id for t in a.targets) and isinstance(a.value, ast.Call) \
+                        and (call_name(a.value) or "").split(".")[-1] in ("Lock", "RLock"):
+                    return True
+        return False
+    n = 0
+    for q in sorted(reach):
+        fi = eng.funcs.get(q)
+        if fi is None:
+            continue
+        for w in ast.walk(fi.node):
+            if isinstance(w, ast.With):
+                names = [(call_name(it.context_expr) or "") if isinstance(it.context_expr, ast.Call) else "" for it in w.items]
+                hit = [nm for nm in names if nm in _PROCESS_WIDE_CM]
+                if not hit:
+                    continue
+                n += 1
+                locked = any(is_lock(it.context_expr, fi) for it in w.items)
+                p = getattr(w, "_parent", None)
+                while p is not None and not locked:
+                    if isinstance(p, ast.With) and any(is_lock(it.context_expr, fi) for it in p.items):
+                        locked = True
+                    p = getattr(p, "_parent", None)
+                if locked:
+                    rep.ok(rule, f"{fi.file}:{w.lineno} {fi.short}", f"with <lock>, {hit[0]}()", "serialised by a module-level lock")
+                else:
+                    rep.fail(rule, fi.file, w.lineno, fi.qualname, f"with {hit[0]}(): ...",
+                             f"{fi.short} runs inside dask tasks and enters {hit[0]}(), which saves and restores PROCESS-WIDE state without any lock: with "
+                             "several worker threads the restores interleave and the temporary setting (warnings turned into errors) stays switched on "
+                             "for the whole process - later statistics that merely warn then raise, and results depend on the scheduler",
+                             anchor=f"process-wide-setting:{fi.short}:{hit[0]}")
+            if isinstance(w, ast.Call) and (call_name(w) or "") in _PROCESS_WIDE_SET:
+                p = getattr(w, "_parent", None)
+                inside = False
+                while p is not None:
+                    if isinstance(p, ast.With) and any(isinstance(it.context_expr, ast.Call) and (call_name(it.context_expr) or "") in _PROCESS_WIDE_CM for it in p.items):
+                        inside = True
+                    p = getattr(p, "_parent", None)
+                if not inside:
+                    n += 1
+                    rep.fail(rule, fi.file, w.lineno, fi.qualname, unparse(w)[:90],
+                             f"{fi.short} runs inside dask tasks and changes a process-wide setting without restoring it")
+    rep.ok(rule, "package", f"{len(reach)} functions reachable from kernels, {n} uses of process-wide settings", "examined")
+    return n
+
+
+def kernel_reach(repo, eng):
+    """Qualnames of every function that can run inside a dask task (kernels of apply_ufunc sites and what they call)."""
+    seen = set()
+    for s_ in sites(repo):
+        for kf in s_.kernels():
+            seen.add(kf.qualname)
+    return _reachable(repo, eng, seen)
+
+
 def core_dim_chunks(repo, rep, rule="R-C07-1"):
     all_sites = sites(repo)
     par = [s for s in all_sites if s.dask == "parallelized"]
@@ -314,6 +386,7 @@ def run(repo, rep, tier):
                      "a mutable default is one object shared by every call, hence by every concurrently running dask task: tasks "
                      "overwrite each other's intermediate data under the threaded scheduler", list(e0.via))
     rep.ok("R-C07-5", "package", f"{nk} kernels, {len(reach)} functions reachable from them", "no write to module-level objects or mutable defaults")
+    process_wide_settings_in_kernels(repo, rep, eng, reach, "R-C07-8")
     cnative_wrapper_state(wrap, rep, "R-C07-5")
     # threads spawned in C
     for tok in ("pthread_create", "omp parallel", "#pragma omp", "thrd_create"):
